@@ -34,8 +34,11 @@ class ConclusionSelector(LogicalBinaryOperator, ABC):
     )
 
     def _start_evaluation_(self) -> None:
+        super()._start_evaluation_()
         for seen in self.concluded_before.values():
             seen.clear()
+        # an abandoned evaluation may have stopped between selecting conclusions and clearing them
+        self._conclusion_.clear()
 
     def update_conclusion(
         self, output: OperationResult, conclusions: typing.Set[Conclusion]
